@@ -77,6 +77,7 @@ CHECKS = {
             P("TestC13_KnownVectors"),
             R("TestC13_Signature", 30000, 1000000),
             R("TestC13_Gate", 20000, 600000),
+            R("TestC13_SeveralIntegrations", 16000, 400000, shards=8),
         ],
     ),
     "C01": dict(
